@@ -25,7 +25,7 @@ var callsAlphabet = map[string]bool{
 	"CallStart": true, "CallSkip": true, "HandOffWait": true, "CallEnq": true, "CallIssued": true,
 	"HStart": true, "HReply": true, "HFail": true, "HEnd": true, "Route": true, "CallRecv": true,
 	"CallConfirm": true, "QF": true, "CorrPublish": true, "CallLoop": true, "CallEnd": true, "CtxEnd": true,
-	"StubRet": true, "ObsAsync": true, "ObsCorr": true, "Quiescent": true, "NodeDown": true,
+	"StubRet": true, "ObsAsync": true, "ObsCorr": true, "Quiescent": true, "NodeDown": true, "NodeFlap": true,
 }
 
 func readScenarios(path string) ([]drive.Scenario, error) {
